@@ -5,6 +5,8 @@ import PQ.Lemmas.SrcEquivOps
 import PQ.Lemmas.SrcEquivStore2
 import PQ.Lemmas.SrcEquivPush
 import PQ.Lemmas.SrcEquivOps2
+import PQ.Lemmas.SrcEquivBulk
+import PQ.Lemmas.SrcEquivBulkQ
 /-!
 # Source-translated tie: audit file
 
@@ -53,6 +55,14 @@ comparison counter `ticks`), the same result value, the same fault with the same
 | `pop_if`, `pop_min_if`, `pop_max_if`             | `SrcGen.pqPopIf`, `dqPopMinIf`, `dqPopMaxIf` | `MaxQ.popIf`, `DQ.popMinIf`, `DQ.popMaxIf` | `SrcEquiv.pqPopIf`, … |
 | `peek`, `peek_min`, `peek_max`                   | `SrcGen.pqPeek`, `dqPeekMin`, `dqPeekMax` | `MaxQ.peek`, `DQ.peekMin`, `DQ.peekMax` | `SrcEquiv.pqPeek`, … |
 | `peek_mut`, `peek_min_mut`, `peek_max_mut` (+ the caller's write `w`) | `SrcGen.pqPeekMut`, … | `MaxQ.peekMutWrite`, `DQ.peek{Min,Max}MutWrite` | `SrcEquiv.pqPeekMut`, … |
+
+| `From<Vec<(I,P)>> for Store` (for `vec.len() < capLimit`) | `SrcGen.storeFromVec` | `Store.fromVec` | `SrcEquiv.storeFromVec` |
+| `FromIterator for Store`                         | `SrcGen.storeFromIter` | `reserveC lo; Store.fromIter` | `SrcEquiv.storeFromIter` |
+| `Extend for Store`                               | `SrcGen.storeExtend`  | `Store.extend`   | `SrcEquiv.storeExtend`    |
+| serde `visit_seq` (capped pre-allocation = `Arith.deserPrealloc`) | `SrcGen.storeVisitSeq` | `Store.visitSeq` | `SrcEquiv.storeVisitSeq` |
+| `Store::retain`                                  | `SrcGen.storeRetain`  | `Store.retainMut` (read-only predicate) | `SrcEquiv.storeRetain` |
+| `retain_mut`, `retain`, `append` (both queues)   | `SrcGen.{pq,dq}{RetainMut,Retain,Append}` | `{MaxQ,DQ}.{retainMut,append}` | `SrcEquiv.{pq,dq}{RetainMut,Retain,Append}` |
+| `From<Vec>`, `FromIterator`, `From<other queue>`, `Deserialize` (both queues) | `SrcGen.{pq,dq}From{Vec,Iter,Queue}`, `{pq,dq}Deserialize` | `{MaxQ,DQ}.{fromVec,fromIter,ofStore,deserialize}` | `SrcEquiv.{pq,dq}From…`, `{pq,dq}Deserialize` |
 
 NOT tied this way: see `PQ/Model/SRC_README.md`.
 
@@ -169,3 +179,22 @@ end PQ.SrcTie
 #print axioms PQ.SrcEquiv.pqPeekMut
 #print axioms PQ.SrcEquiv.dqPeekMinMut
 #print axioms PQ.SrcEquiv.dqPeekMaxMut
+#print axioms PQ.SrcEquiv.storeFromVec
+#print axioms PQ.SrcEquiv.storeFromIter
+#print axioms PQ.SrcEquiv.storeExtend
+#print axioms PQ.SrcEquiv.storeVisitSeq
+#print axioms PQ.SrcEquiv.storeRetain
+#print axioms PQ.SrcEquiv.pqRetainMut
+#print axioms PQ.SrcEquiv.pqRetain
+#print axioms PQ.SrcEquiv.pqAppend
+#print axioms PQ.SrcEquiv.pqFromVec
+#print axioms PQ.SrcEquiv.pqFromIter
+#print axioms PQ.SrcEquiv.pqFromQueue
+#print axioms PQ.SrcEquiv.pqDeserialize
+#print axioms PQ.SrcEquiv.dqRetainMut
+#print axioms PQ.SrcEquiv.dqRetain
+#print axioms PQ.SrcEquiv.dqAppend
+#print axioms PQ.SrcEquiv.dqFromVec
+#print axioms PQ.SrcEquiv.dqFromIter
+#print axioms PQ.SrcEquiv.dqFromQueue
+#print axioms PQ.SrcEquiv.dqDeserialize
